@@ -2,7 +2,7 @@
 
 Per pair of trees (x dict strategy x DEFAULT_PRINTER.quiet):
   leg 1 (E2)  explicit-state BFS over histories of the public operations {bounds, tighten_bounds, is_complete,
-              valid, edits (drained), has_non_zero_cost} on the real edit returned by A.edits(B); a state is rebuilt
+              valid, edits (drained), has_non_zero_cost, refine-the-listed-sub-edits} on the real edit returned by A.edits(B); a state is rebuilt
               by replaying its history on fresh objects and merged by mc.canon.fingerprint; from every visited state
               the run is completed and compared with the reference run.
   leg 2 (E3)  the library's own driver (diff loop, on_diff's edits(), edited_cost loop) with <= k extra operations
@@ -26,7 +26,7 @@ from mc.script import ScriptError, canon_script, refine, tighten_fully, site_of,
 ID = 'C05'
 LEVEL = 'model_checking'
 CASE_TIMEOUT = 120
-OPS = ('b', 't', 'c', 'v', 'e', 'z')
+OPS = ('b', 't', 'c', 'v', 'e', 'z', 's')
 RULE = ('per tree pair: BFS over public-operation histories on the real edit object (states merged by object-graph '
         'fingerprint), injection of <= k extra operations into the library driver (deviation bounded), all operation '
         'sequences of length <= 3 after diff(); states = distinct fingerprints, transitions = operations applied')
@@ -140,6 +140,17 @@ def apply_op(e, op):
         return None
     if op == 'z':
         return e.has_non_zero_cost()
+    if op == 's':
+        # refine the listed first-level sub-edits directly, as has_non_zero_cost()/edited_cost()/get_all_edit_contexts() do
+        if isinstance(e, g.CompoundEdit):
+            n = 0
+            for sub in list(e.edits()):
+                while sub.tighten_bounds():
+                    n += 1
+                    if n > 100000:
+                        raise ScriptError('livelock', 'sub-edit refinement did not end', type(sub).__name__)
+            return n
+        return None
     raise ValueError(op)
 
 
